@@ -86,7 +86,18 @@ func FailoverConfig(options ...Option) (config Config) {
 	config.OnFailure = func(ctx context.Context) {
 		clientContext := core.GetClientContext(ctx)
 		urls := clientContext.Client().URLs
+		failed := clientContext.URL
 		clientContext.URL = urls[getIndex(&index, int64(len(urls)))]
+		if n := len(urls); n > 1 && clientContext.URL == failed {
+			// the rotation index is shared by all calls of this plugin, so it can point
+			// at the server that has just failed: take that server's successor instead.
+			for i, u := range urls {
+				if u == failed {
+					clientContext.URL = urls[(i+1)%n]
+					break
+				}
+			}
+		}
 	}
 	config.OnRetry = func(ctx context.Context) time.Duration {
 		clientContext := core.GetClientContext(ctx)
